@@ -21,6 +21,10 @@ CHECKS = {
          "Equality is judged by mc/src/obs.rs dumps and by the crate's own PartialEq; documents outside the enumerated spaces are not covered.",
          "DESIGN.md §5 C04"),
 
+ "C05": ("bounded-exhaustive documents x expressions generated from a reference AST grammar (every axis x node test x predicate list from every context kind; deviation-bounded three-step paths; unions, filters, functions, comparisons over a path pool), each in unabbreviated and abbreviated spelling, compared with a reference XPath 1.0 evaluator on the data model built from the abstract document",
+         "Every generated expression is evaluated on every document of the small-scope universe by xml_xpath::query (merged-text view) and by the reference evaluator; node-sets must hold exactly the expected nodes, once, in document order; scalars compare exactly.",
+         "Trusts mc/src/model/xpath.rs (DESIGN.md Appendix C) and the node mapping in mc/src/checks/xp.rs; expressions and documents beyond the bounds are not covered; caller bindings are varied in C10.",
+         "DESIGN.md §5 C05"),
  "C09": ("bounded-exhaustive products of core functions / operators with argument tuples from string, number and boolean pools, rendered from the AST and compared with a reference XPath 1.0 core library",
          "Every function and operator application over the pools (every arity admitted, one below and one above) is evaluated by xml_xpath::query and by the reference evaluator; values compare exactly (numbers bitwise, NaN canonical).",
          "Trusts mc/src/model/xpath.rs (number <-> string conversions, substring rounding formula, round tie rule, comparison coercions) as the reading of XPath 1.0 sections 3.4, 3.5 and 4; strings outside the pool are not covered.",
